@@ -143,8 +143,11 @@ type Kernel struct {
 	Faults    []ReqFault
 	Now       func() int64
 	Closes    int
-	recvOrd   int
-	unsolSeq  int
+	// ExemptSeq0 is set when the run fast-forwards the sequence counter to the
+	// uint32 wrap (see Sendto). Without it a client never sends sequence 0.
+	ExemptSeq0 bool
+	recvOrd    int
+	unsolSeq   int
 	// statistics (faults fired)
 	FiredErrno, FiredUnsol, FiredStale, FiredDelay, FiredTrunc, FiredSpoof int
 }
@@ -267,7 +270,7 @@ func (k *Kernel) Sendto(wire []byte, dstPid uint32) int {
 		r.Malformed = "NLM_F_REQUEST not set"
 		return 0 // netlink_rcv_skb ignores non-requests
 	}
-	if r.Seq == 0 {
+	if r.Seq == 0 && k.ExemptSeq0 {
 		// The request whose sequence number is 0 (reached after 2^32 requests on
 		// one client, or by fast-forwarding the counter) cannot be told from an
 		// audit record by the reader, which has to treat sequence 0 as
